@@ -82,10 +82,11 @@ class Ctx:
 
     # ---------------------------------------------------------------- static library
     def ensure_static(self):
-        """the static Coq library must be built (setup_cmd does it); build on demand otherwise"""
-        mk = os.path.join(COQ_STATIC, 'Makefile')
+        """the static Coq library must be built (setup_cmd does it); on demand only the directories this
+        property needs are (re)built, so a file of another property cannot block or break this check"""
+        targets = ' '.join(os.path.relpath(v, COQ_STATIC) + 'o' for v in static_files(static_dirs(self.mod)))
         rc, out = sh(f'sh {VERIF}/tools/mkcoqproject.sh && cd {COQ_STATIC} && '
-                     f'timeout 3000 make -k -j{NCPU} 2>&1 | tail -30', timeout=3100)
+                     f'timeout 1500 make -k -j{NCPU} {targets} 2>&1 | tail -30', timeout=1600)
         if rc != 0 or 'Error' in out:
             self.note('static Coq library failed to build:\n' + out)
             return False
@@ -325,7 +326,27 @@ class Ctx:
         return 1 if unknown else 0
 
 
-def static_stale():
+def static_dirs(mod):
+    """static library directories this property needs (its own, the shared layer, declared extras)"""
+    ds = ['Sem', mod.ID] + list(getattr(mod, 'STATIC_DIRS', []))
+    return [d for d in dict.fromkeys(ds) if os.path.isdir(os.path.join(COQ_STATIC, d))]
+
+
+def static_files(dirs):
+    out = []
+    for d in dirs:
+        for root, _, files in os.walk(os.path.join(COQ_STATIC, d)):
+            out += [os.path.join(root, f) for f in files if f.endswith('.v')]
+    return sorted(out)
+
+
+def static_stale(dirs=None):
+    if dirs is not None:
+        for v in static_files(dirs):
+            vo = v + 'o'
+            if not os.path.exists(vo) or os.path.getmtime(vo) < os.path.getmtime(v):
+                return True
+        return False
     for root, _, files in os.walk(COQ_STATIC):
         for f in files:
             if f.endswith('.v'):
@@ -442,12 +463,12 @@ def main(argv):
         obj = json.load(open(a.replay))
         return mod.replay(ctx, obj)
     ctx.prepare_build()
-    if static_stale() or os.environ.get('VERIF_REBUILD_STATIC'):
+    if static_stale(static_dirs(mod)) or os.environ.get('VERIF_REBUILD_STATIC'):
         import fcntl
         os.makedirs(os.path.join(VERIF, 'build'), exist_ok=True)
         with open(os.path.join(VERIF, 'build', '.static.lock'), 'w') as lk:
             fcntl.flock(lk, fcntl.LOCK_EX)
-            if static_stale():
+            if static_stale(static_dirs(mod)) or os.environ.get('VERIF_REBUILD_STATIC'):
                 ctx.ensure_static()
     ok = ctx.translate()
     if hasattr(mod, 'pre_build'):
